@@ -23,6 +23,7 @@ SYMVER_MIN     := $(call mkvar,SYMVER_MIN)
 SYMVER_FLOOR   := $(call mkvar,SYMVER_FLOOR)
 COMPAT_ABI     := $(call mkvar,COMPAT_ABI)
 SCR := $(REPO)/build-aux/scripts
+FAILTOK := $(or $(shell sed -n 's/^#define ENABLE_FAILURE_TOKENS  *//p' $(REPO)/config.h),0)
 
 # the library's source list, as automake sees it (files that are only #included are not in it)
 LIBSRC  := $(addprefix $(REPO)/,$(shell awk '/^libcrypt_la_SOURCES/{f=1} f{for(i=1;i<=NF;i++) if($$i ~ /^lib\/.*\.c$$/) print $$i} f && !/\\$$/{f=0}' $(REPO)/Makefile.am))
@@ -33,7 +34,7 @@ GENHDR := $(GEN)/crypt.h $(GEN)/crypt-hashes.h $(GEN)/crypt-symbol-vers.h
 LIBCPP := -DHAVE_CONFIG_H -DIN_LIBCRYPT -DPIC -I$(GEN) -I$(REPO) -I$(REPO)/lib \
           -Wno-unknown-attributes -Wno-attributes
 
-all: $(B)/simcrypt-asan $(B)/simcrypt-thr $(B)/simcrypt-O0 $(B)/refsrv $(B)/rngsim $(B)/tree.sha $(B)/externals.txt
+all: $(B)/simcrypt-asan $(B)/simcrypt-asan-ft $(B)/simcrypt-thr $(B)/simcrypt-O0 $(B)/refsrv $(B)/rngsim $(B)/tree.sha $(B)/externals.txt
 
 setup: all
 
@@ -42,7 +43,7 @@ clean:
 	rm -rf $(B)
 
 $(GEN)/.dir:
-	mkdir -p $(GEN) $(B)/asan $(B)/thr $(B)/O0 $(B)/ref $(B)/rng $(B)/h
+	mkdir -p $(GEN) $(B)/asan $(B)/asanft $(B)/thr $(B)/O0 $(B)/ref $(B)/rng $(B)/h
 	touch $@
 
 # ---- generated headers: the repository's own generators
@@ -74,7 +75,7 @@ LIBSTATE := --rename-section .data=libdata --rename-section .bss=libbss --rename
 # ---- library objects per variant
 define LIBRULE
 $(B)/$(1)/%.o: $(REPO)/lib/%.c $(GENHDR) $(REPO)/config.h $(V)/Makefile
-	@echo CC[$(1)] $$(notdir $$<); $(2) $(LIBCPP) -MMD -MP -MT $$@ -MF $$@.d -c $$< -o $$@.raw.o
+	@mkdir -p $$(dir $$@); echo CC[$(1)] $$(notdir $$<); $(2) $(LIBCPP) -MMD -MP -MT $$@ -MF $$@.d -c $$< -o $$@.raw.o
 	@$(OBJCOPY) $(3) $(4) --globalize-symbol=nr_encrypt_ctx $$@.raw.o $$@
 $(1)_LIBOBJ := $(addprefix $(B)/$(1)/,$(addsuffix .o,$(LIBBASE)))
 -include $(addprefix $(B)/$(1)/,$(addsuffix .o.d,$(LIBBASE)))
@@ -86,13 +87,15 @@ O0_FLAGS   := -O0 -g
 REF_FLAGS  := -O2 -g
 
 $(eval $(call LIBRULE,asan,$(CLANG) $(ASAN_FLAGS),$(call redir,$(REDIR_MEM) $(REDIR_DENY)),$(LIBSTATE)))
+# same as asan, failure-token option flipped relative to the shipped configuration (C05, second engine)
+FLIPTOK := $(if $(filter 1,$(FAILTOK)),0,1)
+$(eval $(call LIBRULE,asanft,$(CLANG) $(ASAN_FLAGS) -I$(SIM)/ntcfg -DREPO_CONFIG_H='"$(REPO)/config.h"' -DSIM_FLIPPED_FAILTOK=$(FLIPTOK),$(call redir,$(REDIR_MEM) $(REDIR_DENY)),$(LIBSTATE)))
 $(eval $(call LIBRULE,thr,$(CLANG) $(THR_FLAGS),$(call redir,$(REDIR_MEM) $(REDIR_THR) $(REDIR_DENY)),$(LIBSTATE)))
 $(eval $(call LIBRULE,O0,$(GCC) $(O0_FLAGS),$(call redir,$(REDIR_MEM) $(REDIR_DENY)),$(LIBSTATE)))
 $(eval $(call LIBRULE,ref,$(CLANG) $(REF_FLAGS),,))
 
 # ---- harness
 HHDR := $(wildcard $(SIM)/*.hh) $(wildcard $(SIM)/*.h)
-FAILTOK := $(or $(shell sed -n 's/^#define ENABLE_FAILURE_TOKENS  *//p' $(REPO)/config.h),0)
 HCPP := -std=c++17 -I$(GEN) -I$(SIM) -Wall -Wno-unused-function -Wno-unused-variable \
         -DENABLE_FAILURE_TOKENS=$(FAILTOK) -DREPO_DIR='"$(REPO)"' -DHASHES_ENABLED='"$(HASHES_ENABLED)"'
 HLIBS := -lpthread -lgcrypt -Wl,-z,now
@@ -112,12 +115,15 @@ $(B)/h/$(1)/%.o: $(SIM)/%.cc $(HHDR) $(GENHDR) $(V)/Makefile
 $(1)_HOBJ := $(addprefix $(B)/h/$(1)/,$(addsuffix .o,$(HNAMES)))
 endef
 $(eval $(call HRULE,asan,$(CLANGXX) -DSIM_ASAN -O1 -g -fno-omit-frame-pointer -fsanitize=address))
+$(eval $(call HRULE,asanft,$(CLANGXX) -DSIM_ASAN -DSIM_FAILTOK=$(FLIPTOK) -O1 -g -fno-omit-frame-pointer -fsanitize=address))
 $(eval $(call HRULE,thr,$(CLANGXX) -DSIM_THR -O2 -g -fno-omit-frame-pointer))
 $(eval $(call HRULE,O0,$(GXX) -DSIM_O0 -O1 -g))
 $(eval $(call HRULE,rng,$(CLANGXX) -DSIM_ASAN -DSIM_RNG -O1 -g -fno-omit-frame-pointer -fsanitize=address))
 
 $(B)/simcrypt-asan: $(asan_HOBJ) $(asan_LIBOBJ) $(B)/h/prim-asan.o
 	$(CLANGXX) -fsanitize=address $(asan_HOBJ) $(B)/h/prim-asan.o $(asan_LIBOBJ) $(HLIBS) -o $@
+$(B)/simcrypt-asan-ft: $(asanft_HOBJ) $(asanft_LIBOBJ) $(B)/h/prim-asan.o
+	$(CLANGXX) -fsanitize=address $(asanft_HOBJ) $(B)/h/prim-asan.o $(asanft_LIBOBJ) $(HLIBS) -o $@
 $(B)/simcrypt-thr: $(thr_HOBJ) $(B)/h/thr/thr_rt.o $(thr_LIBOBJ) $(B)/h/prim-thr.o
 	$(CLANGXX) $(thr_HOBJ) $(B)/h/thr/thr_rt.o $(B)/h/prim-thr.o $(thr_LIBOBJ) $(HLIBS) -o $@
 $(B)/simcrypt-O0: $(O0_HOBJ) $(O0_LIBOBJ) $(B)/h/prim-O0.o
